@@ -17,7 +17,8 @@ ASSUMPTIONS = [
     "query methods are paused only at their first statement (the fast-path test) and inside __iter__/_iter_cached; their other statements touch only thread-local state",
 ]
 RULE = ("schedules: (a) every next()-interleaving with <= 2 (thorough 3) switches of 2-3 iterators over src lengths 0,1,9,10,11,19,20,21; "
-        "(b) statement granularity: 2 threads, every single pre-emption point k0, a grid of (k0,k1) double pre-emptions, 3 threads random, "
+        "(b) statement granularity: 2 threads, every single pre-emption point k0, a grid of (k0,k1) double pre-emptions, 3 threads with 2 "
+        "pre-emptions on a systematic grid (thorough: 20x19 points x 2 orders x 8 lengths) and random, "
         "then seeded random schedules of 2-4 threads running list/islice/index/slice/in/count/before/after/xafter/between on rrule and rruleset objects; "
         "distinct = distinct (src, queries, schedule); non-trivial = all threads finished (vs a deadlock or an escaped exception)")
 
@@ -124,6 +125,13 @@ def thread_schedules(ctx, rng):
             k0 = rng.choice([rng.randrange(0, 45), rng.randrange(0, K)])
             k1 = rng.choice([rng.randrange(1, 45), rng.randrange(1, K)])
             out.append((rng.choice(["daily", "set"]), n, [A, A], [(0, k0), (1, k1), (0, rng.choice([None, rng.randrange(1, K)]))]))
+    # three threads, two pre-emptions, systematic grid: thread a runs k0 statements, thread b runs k1, then
+    # everybody to the end (thorough: every 3rd point of the fill/boundary region for both orders of the
+    # pre-empted pair and every length; quick: a seeded sample of the same grid)
+    grid = list(range(0, 48, 3)) + [55, 70, 90, 120]
+    three = [("daily", n, [A, A, A], [(a, k0), (b, k1), (c, None)])
+             for n in LENGTHS for (a, b, c) in ((0, 1, 2), (1, 0, 2)) for k0 in grid for k1 in grid if k1 > 0]
+    out += three if full else rng.sample(three, 40)
     # three threads, up to three pre-emptions
     for _ in range(ctx.budget(60, 1500)):
         n = rng.choice(LENGTHS)
